@@ -231,6 +231,59 @@ theorem upstream_side_prefix (chunk : Nat) (hc : 0 < chunk)
   obtain ⟨rest, hr⟩ := copy_prefix copyReads [] r
   exact ⟨rest, by simpa using hr⟩
 
+/-- **Upstream, legacy (multiplexed) mode**: every chunk io.Copy reads from the peeked
+    connection is one write RPC whose bytes the endpoint writes into the session pipe; the
+    application's reads of that pipe are a prefix of what the client wrote, ClientHello first. -/
+theorem upstream_legacy_prefix (r : C14.BR) (copyReads : List Nat) (appReads : List Nat) :
+    (pipeReads (copyReads.foldl (fun (p : C14.BR × List Bytes) k =>
+        ((p.1.read k).1, p.2 ++ [(p.1.read k).2])) (r, [])).2 appReads).flatten
+      <+: r.pending := by
+  refine (pipeReads_prefix _ _).trans ?_
+  obtain ⟨rest, hr⟩ := copy_prefix copyReads [] r
+  exact ⟨rest, by simpa using hr⟩
+
+/-- what the client-side tunnel reads deliver, one read RPC per requested size: each reply is
+    what `handleRead` took from the pipe, checked by `tunnelRead` -/
+def legacyDown (clamp : Nat) (writes : List Bytes) (reqs : List Nat) : List Bytes :=
+  pipeReads writes (reqs.map fun k => min k clamp)
+
+/-- **Downstream, legacy mode**: whatever sizes io.Copy asks for and however the application
+    splits its writes, the bytes delivered to the front connection are a prefix of what the
+    application wrote — every reply fits the request (so `tunnel.Read` never errs on an honest
+    endpoint) and replies never cross or lose a write. -/
+theorem downstream_legacy_prefix (clamp : Nat) (writes : List Bytes) (reqs : List Nat) :
+    (legacyDown clamp writes reqs).flatten <+: writes.flatten :=
+  pipeReads_prefix _ _
+
+/-- each reply of the legacy down path is at most the size requested for it -/
+theorem pipeReads_sizes (ws : List Bytes) (ks : List Nat) :
+    ∀ p ∈ (pipeReads ws ks).zip ks, p.1.length ≤ p.2 := by
+  fun_induction pipeReads ws ks with
+  | case1 => simp
+  | case2 => simp
+  | case3 ws k ks ih => exact ih
+  | case4 w ws k ks hne hle ih =>
+    intro p hp
+    simp only [List.zip_cons_cons, List.mem_cons] at hp
+    rcases hp with rfl | hp
+    · exact hle
+    · exact ih p hp
+  | case5 w ws k ks hne hle ih =>
+    intro p hp
+    simp only [List.zip_cons_cons, List.mem_cons] at hp
+    rcases hp with rfl | hp
+    · have h2 : (w.take k).length = min k w.length := List.length_take
+      simp only; omega
+    · exact ih p hp
+
+/-- **Downstream, side modes**: the application's writes, framed by `sideWrite` and drained by
+    reads of any sizes at the proxy, arrive as a prefix of what was written. -/
+theorem downstream_side_prefix (chunk : Nat) (hc : 0 < chunk) (writes : List Bytes) (reads : List Nat) :
+    (pipeReads (writes.flatMap (sideWrite chunk)) reads).flatten <+: writes.flatten := by
+  refine (pipeReads_prefix _ _).trans ?_
+  rw [flatMap_sideWrite_flatten chunk hc]
+  exact List.prefix_refl _
+
 /-! ### the regenerated instance -/
 
 theorem gen_side_chunk_pos : 0 < Gen.Stream.sideChunk := by decide
